@@ -29,8 +29,10 @@ def histories(rng, tier):
                 for t in ln.split():
                     if t.startswith('pix=') and t != 'pix=_':
                         written += [int(x) for x in t[4:].split(',')]
+            elif c.single_field(rng) is None:
+                continue
             else:
-                f = rng.randrange(len(c.fields))
+                f = c.single_field(rng)
                 via = rng.choice(['getitem', 'get_single'])
                 h.append('single m r=v field=%d via=%s' % (f, via))
                 fc = gen.MapCfg('v', 'plain', c.covord, c.spord, dtype=c.fields[f])
@@ -49,10 +51,15 @@ def histories(rng, tier):
                           'nvalid m']
                 h += ['state v', 'valid v']
             h += ['state m', 'valid m', 'nvalid m']
-            if rng.random() < 0.5:
-                f = rng.randrange(len(c.fields))
-                h += ['single m r=w field=%d' % f, 'vals w', 'valid w', 'info w',
-                      'single m r=k field=%d copy=1' % f, 'vals k', 'valid k', 'info k', 'state k']
+            if rng.random() < 0.5 and c.single_field(rng) is not None:
+                f = c.single_field(rng)
+                # sentinel override: honoured by the copy; a view cannot re-sentinel shared storage (refused
+                # unless it is the value the storage holds; ignored for the primary field)
+                so = rng.choice(['', '', ' sentinel=%s' % gen.MapCfg('x', 'plain', 0, 0, dtype=c.fields[f]).scalar_tok(rng)])
+                # (w, k dropped first: a refused call must not leave an earlier, by now stale, view under the name)
+                h += ['drop w', 'drop k',
+                      'single m r=w field=%d%s' % (f, so), 'vals w', 'valid w', 'info w', 'state w',
+                      'single m r=k field=%d copy=1%s' % (f, so), 'vals k', 'valid k', 'info k', 'state k']
             if written and rng.random() < 0.4:
                 path = rng.choice(['pix', 'getitem_arr', 'getitem_int'])
                 k = 1 if path == 'getitem_int' else min(3, len(written))
